@@ -1,6 +1,7 @@
 package pnode
 
 import (
+	"bytes"
 	"fmt"
 	"time"
 
@@ -24,6 +25,8 @@ type RoundScript struct {
 	Prevotes   []string // per other validator (1..3): "block" | "nil" | "none"
 	Precommits []string
 	Order      []int // order in which the three others speak
+	// before the genuine parts a peer delivers, for one part index, a part with the genuine proof and other bytes
+	ForgedPart bool
 }
 
 func GenRoundScript(t *rapid.T, label string) RoundScript {
@@ -37,6 +40,7 @@ func GenRoundScript(t *rapid.T, label string) RoundScript {
 		sc.Precommits = append(sc.Precommits, vote(label+".precommit"))
 	}
 	sc.Order = rapid.Permutation([]int{1, 2, 3}).Draw(t, label+".order")
+	sc.ForgedPart = rapid.IntRange(0, 3).Draw(t, label+".forgedPart") == 0
 	return sc
 }
 
@@ -88,6 +92,36 @@ func signVote(chainID string, key int, vals *types.ValidatorSet, typ tmproto.Sig
 	return v
 }
 
+// CheckPartSet is the first sentence of C10 evaluated on a node at a quiescent point: a completed part set
+// reassembles to exactly the bytes its header's root commits to, and to the block the proposal names.
+func CheckPartSet(n *PNode) string {
+	rs := n.CS.GetRoundState()
+	ps := rs.ProposalBlockParts
+	if ps == nil || !ps.IsComplete() {
+		return ""
+	}
+	var leaves [][]byte
+	for i := 0; i < int(ps.Total()); i++ {
+		part := ps.GetPart(i)
+		if part == nil {
+			return fmt.Sprintf("part set of %d/%d says it is complete but part %d is missing", rs.Height, rs.Round, i)
+		}
+		leaves = append(leaves, part.Bytes)
+	}
+	if root := lib.RefMerkleRoot(leaves); !bytes.Equal(root, ps.Header().Hash) {
+		return fmt.Sprintf("completed part set of %d/%d holds bytes whose Merkle root is %X, its header says %X (a part that does not belong to the root was admitted)", rs.Height, rs.Round, root, ps.Header().Hash)
+	}
+	if rs.Proposal != nil && rs.Proposal.BlockID.PartSetHeader.Equals(ps.Header()) {
+		if rs.ProposalBlock == nil {
+			return fmt.Sprintf("completed part set of %d/%d did not yield a block", rs.Height, rs.Round)
+		}
+		if !bytes.Equal(rs.ProposalBlock.Hash(), rs.Proposal.BlockID.Hash) {
+			return fmt.Sprintf("completed part set of %d/%d reassembles to block %X, the proposal names %X", rs.Height, rs.Round, rs.ProposalBlock.Hash(), rs.Proposal.BlockID.Hash)
+		}
+	}
+	return ""
+}
+
 type player struct {
 	n     *PNode
 	marks *[]Mark
@@ -96,6 +130,9 @@ type player struct {
 
 func (pl *player) mark(what string) {
 	n := pl.n
+	if n.PartViolation == "" {
+		n.PartViolation = CheckPartSet(n)
+	}
 	if pl.marks != nil && n.WAL != nil {
 		*pl.marks = append(*pl.marks, Mark{WALRecords: n.WAL.SinceEnd, FP: fingerprint(n.CS)})
 	}
@@ -162,6 +199,15 @@ func (pl *player) PlayRound(sc RoundScript) bool {
 			prop.Signature = sig
 			if !pl.send(&consensus.ProposalMessage{Proposal: prop}, proposer, "proposal") {
 				return false
+			}
+			if sc.ForgedPart {
+				g := parts.GetPart(int(parts.Total()) - 1)
+				forged := &types.Part{Index: g.Index, Bytes: append([]byte(nil), g.Bytes...), Proof: g.Proof}
+				forged.Bytes[len(forged.Bytes)/2] ^= 0x5a
+				n.ForgedParts++
+				if !pl.send(&consensus.BlockPartMessage{Height: h, Round: r, Part: forged}, (proposer%3)+1, "forged-part") {
+					return false
+				}
 			}
 			for i := 0; i < int(parts.Total()); i++ {
 				if !pl.send(&consensus.BlockPartMessage{Height: h, Round: r, Part: parts.GetPart(i)}, proposer, "part") {
